@@ -213,7 +213,7 @@ func runSource(raw json.RawMessage) (interface{}, error) {
 	default:
 		return nil, fmt.Errorf("unknown kind %q", in.Kind)
 	}
-	res, err := observeWatch(startWatchFn(in.RefreshMs, limit, step), limit)
+	res, err := observeWatchRetry(func() *watcher { return startWatchFn(in.RefreshMs, limit, step) }, limit)
 	if err != nil {
 		return nil, err
 	}
